@@ -10,6 +10,10 @@ CHECKS = {
    text="Deviation-bounded exhaustive exploration of thread schedules of the real lock engine (instrumented copy under a deterministic runtime): 2-3 client threads on one key / two keys colliding in one fast slot, sweepers included; a transition monitor evaluates the grant rule keyed by (db,key) at every shard-mutex release. Exhaustive for <=2 (quick) / <=3 (thorough) scheduling deviations per scenario; not a proof for unbounded schedules.",
    note="Trusted: the instrumenter (syntactic rewrite of sync/atomic/chan/time/net/os onto the vrt runtime, gated by the repo's own 68 server tests passing on the rewritten copy), sequentially consistent memory, the scenario alphabet (Count 0/1, Rcount 0/1, short timeouts/expiries).",
    technique="stateless model checking of the implementation: deviation-bounded schedule DFS under a controlled scheduler"),
+ "C02": dict(level="model_checking", design="4/C02",
+   text="Explicit-state breadth-first search over all operation histories up to a depth (from the empty state and from ramped states with 5-7/127-130 holders and depth 253), each transition executed on the real engine and compared with a sequential reference model of ownership and re-entrant depth. Exhaustive within alphabet and depth.",
+   note="Trusted: instrumenter+runtime (see C01), the RefLockDB reference (written from the documented semantics; disagreements on the unchanged tree were triaged by hand), the canonical state key used for merging (cross-checked against an unmerged tree at smaller depth).",
+   technique="explicit-state model checking of the implementation: BFS over operation histories by replay, canonical-state deduplication, reference-model oracle"),
 }
 NA_DEFAULT = "check not built yet in this round (planned: see DESIGN.md section 4)"
 
